@@ -13,8 +13,12 @@ f=["\n## A6. Findings on the pinned tree\n",
 for x in k['fixed']:
     f.append("* "+x[len("fixed: "):] if x.startswith("fixed: ") else "* "+x)
 f.append("\n### A6.2 Recorded as known findings (known_findings.json; the check prints `KNOWN-FINDING:` and exits 0)\n")
+import collections
+grp=collections.OrderedDict()
 for x in k['findings']:
-    f.append(f"* **{x['property']}** `{x['harness']}` / `{x['assert']}` — {x['what']}")
+    grp.setdefault((x['property'],x['what']),[]).append(f"`{x['harness'].replace('VerifH_','')}/{x['assert']}`")
+for (prop,what),ids in grp.items():
+    f.append(f"* **{prop}** — {what}  \n  ids ({len(ids)}): "+", ".join(ids))
 out.append('\n'.join(f)+'\n')
 # seeds
 s=["\n## A7. Seeded changes (independent breaking changes) and which check catches them\n",
